@@ -45,4 +45,132 @@ def liveRun (fuel : Nat) : LState → List LiveEv → List LiveRes
 
 def LState.init : LState := ⟨[], fun _ => []⟩
 
+/-! ### block-level events: ETag, Request-Tag, lg_xmit timeout, table changes WHILE transfers are under way
+
+  coap_add_data_large_internal   `lg_xmit->b.b2.etag = etag` (0 for the well-known handler), then for a NEW lg_xmit
+                                 `if (++context->etag == 0) ++context->etag;` goes into the ETag option of the response
+                                 and so into the skeleton PDU `lg_xmit->pdu`; a body of one block and the "single block"
+                                 path (num ≠ 0, no lg_xmit) carry NO ETag                         → `serveFreshB`, `nextEtag`
+  coap_find_lg_xmit_response     (resource, method, query) as before, and Request-Tag: both absent, or both present
+                                 with equal length and bytes                                        → `matchB`
+  coap_handle_request_send_block blocks ≥ 1: options of the skeleton PDU (ETag of the body) are copied, payload is the
+                                 block of the CACHED body; a Block2 SZX other than the transfer's: 4.00 "Changing
+                                 blocksize during request invalid"                                  → `serveB`
+  coap_block_check_lg_xmit_timeouts  deletes the entries whose timer ran out (which ones: any subset, `keepMask`)
+
+Scope: GET + Block2 (SZX ≤ 6) on the pseudo resource, optional Request-Tag (≤ 8 bytes), no ETag / Observe / Q-Block2
+option in the request, UDP session in COAP_BLOCK_USE_LIBCOAP mode, no other resource consuming `context->etag`. -/
+
+/-- a Block2 response `coap_lg_xmit_t`: key (query, Request-Tag), body, block size, and the ETag option of `lg_xmit->pdu` -/
+structure LgB where
+  key : Option Bytes
+  rtag : Option Bytes
+  data : Bytes
+  szx : Nat
+  etag : Nat
+  deriving DecidableEq, Repr
+
+abbrev CacheB := List LgB
+
+/-- `coap_find_lg_xmit_response`'s test of one entry -/
+def matchB (key rtag : Option Bytes) (e : LgB) : Bool := keyEq e.key key && (rtag == e.rtag)
+
+/-- `if (++session->context->etag == 0) ++session->context->etag;` on a `uint64_t` -/
+def nextEtag (e : Nat) : Nat := if (e + 1) % 2 ^ 64 = 0 then 1 else (e + 1) % 2 ^ 64
+
+structure ReqB where
+  sid : Nat
+  num : Nat
+  szx : Nat
+  /-- values of the Uri-Query options -/
+  opts : List Bytes
+  /-- value of the Request-Tag option, if any -/
+  rtag : Option Bytes
+  deriving DecidableEq, Repr
+
+inductive RespB where
+  /-- 2.05 with this payload, this M bit and this ETag option (if any) -/
+  | blk (payload : Bytes) (more : Bool) (etag : Option Nat)
+  | err (code : Nat)
+  deriving DecidableEq, Repr
+
+/-- server state: the table, every session's `lg_xmit` list, `context->etag` -/
+structure BState where
+  table : Table
+  cache : Nat → CacheB
+  etag : Nat
+
+/-- the handler path with the ETag: hnd_get_wellknown_lkd → coap_add_data_large_response_lkd → coap_add_data_large_internal -/
+def serveFreshB (t : Table) (c : CacheB) (ce : Nat) (key : Option Bytes) (r : ReqB) : R (CacheB × Nat × RespB) :=
+  match getBody t r.opts with
+  | R.oob => R.oob
+  | R.rej => R.ok (c, ce, RespB.err 503)
+  | R.ok body =>
+    let chunk := 2 ^ (r.szx + 4)
+    if body.length = 0 then R.ok (c, ce, RespB.blk [] false none)
+    else if r.num ≠ 0 ∧ body.length ≤ r.num * chunk then R.ok (c, ce, RespB.err 400)
+    else
+      let c1 := c.eraseP (matchB key r.rtag)
+      if r.num ≠ 0 then
+        R.ok (c1, ce, RespB.blk (block body chunk r.num) (decide ((r.num + 1) * chunk < body.length)) none)
+      else if body.length > chunk then
+        R.ok (⟨key, r.rtag, body, r.szx, nextEtag ce⟩ :: c1, nextEtag ce,
+              RespB.blk (body.take chunk) true (some (nextEtag ce)))
+      else R.ok (c1, ce, RespB.blk body false none)
+
+/-- one block request -/
+def serveB (t : Table) (c : CacheB) (ce : Nat) (r : ReqB) : R (CacheB × Nat × RespB) :=
+  match MU.getQuery r.opts with
+  | R.oob => R.oob
+  | R.rej => R.rej
+  | R.ok key =>
+    if r.num = 0 then serveFreshB t c ce key r
+    else
+      match c.find? (matchB key r.rtag) with
+      | none => serveFreshB t c ce key r
+      | some e =>
+        let chunk := 2 ^ (e.szx + 4)
+        if r.szx ≠ e.szx then R.ok (c, ce, RespB.err 400)             -- "Changing blocksize during request invalid"
+        else if e.data.length ≤ r.num * chunk then R.ok (c, ce, RespB.err 500)
+        else R.ok (c, ce, RespB.blk (block e.data chunk r.num) (decide (r.num * chunk + chunk < e.data.length))
+                           (some e.etag))
+
+/-- the entries the timeout check leaves (`true` = timer still running); entries beyond the mask are deleted -/
+def keepMask : CacheB → List Bool → CacheB
+  | e :: c, true :: m => e :: keepMask c m
+  | _ :: c, false :: m => keepMask c m
+  | _, _ => []
+
+inductive BEv where
+  /-- the application changes the table -/
+  | op (o : TableOp)
+  /-- a client asks for one block -/
+  | get (r : ReqB)
+  /-- `coap_block_check_lg_xmit_timeouts` on a session -/
+  | expire (sid : Nat) (keep : List Bool)
+  deriving DecidableEq, Repr
+
+/-- what an observer of the wire sees of one block request, with the table as it was at that moment -/
+structure Obs where
+  req : ReqB
+  table : Table
+  resp : RespB
+
+def stepB (st : BState) : BEv → BState × Option Obs
+  | .op o => (⟨applyOp st.table o, st.cache, st.etag⟩, none)
+  | .expire sid keep => (⟨st.table, upd st.cache sid (keepMask (st.cache sid) keep), st.etag⟩, none)
+  | .get r =>
+    match serveB st.table (st.cache r.sid) st.etag r with
+    | R.ok (c', ce', resp) => (⟨st.table, upd st.cache r.sid c', ce'⟩, some ⟨r, st.table, resp⟩)
+    | _ => (st, some ⟨r, st.table, RespB.err 0⟩)
+
+def runB : BState → List BEv → List Obs
+  | _, [] => []
+  | st, ev :: r =>
+    match (stepB st ev).2 with
+    | some o => o :: runB (stepB st ev).1 r
+    | none => runB (stepB st ev).1 r
+
+def BState.init (t : Table) (e : Nat) : BState := ⟨t, fun _ => [], e⟩
+
 end Coap.M.LF
